@@ -29,6 +29,8 @@ type skipOps interface {
 	get(k []byte) (string, bool)
 	has(k []byte) bool
 	iter(kind string, a, b []byte) (string, error)
+	// open creates an iterator and hands out its Next: (entry "k=v", done, error); rejected = the constructor refused
+	open(kind string, a, b []byte) (next func() (string, bool, error), rejected bool)
 }
 
 type skipImpl[K any] struct {
@@ -86,11 +88,58 @@ func (s *skipImpl[K]) iter(kind string, a, b []byte) (string, error) {
 	return strings.Join(parts, ";"), nil
 }
 
+func (s *skipImpl[K]) open(kind string, a, b []byte) (func() (string, bool, error), bool) {
+	var it skiplist.IteratorI[K, string]
+	var err error
+	switch kind {
+	case "all":
+		it, err = s.m.Iterator()
+	case "from":
+		it, err = s.m.IteratorStartingAt(s.conv(a))
+	case "between":
+		it, err = s.m.IteratorBetween(s.conv(a), s.conv(b))
+	}
+	if err != nil {
+		return nil, true
+	}
+	return func() (string, bool, error) {
+		k, v, e := it.Next()
+		if errors.Is(e, skiplist.Done) {
+			return "", true, nil
+		}
+		if e != nil {
+			return "", false, e
+		}
+		return gb(nonNil(s.back(k))) + "=" + v, false, nil
+	}, false
+}
+
+// newSkipImpl: a fresh map under the named comparator (scale != 1: a consistent byte comparator with other magnitudes)
+func newSkipImpl(cmp string, scale int) skipOps {
+	switch cmp {
+	case "int":
+		return &skipImpl[int64]{m: skiplist.NewSkipListMap[int64, string](skiplist.OrderedComparator[int64]{}), conv: decodeIntKey, back: intKey}
+	case "string":
+		return &skipImpl[string]{m: skiplist.NewSkipListMap[string, string](skiplist.OrderedComparator[string]{}),
+			conv: func(b []byte) string { return string(b) }, back: func(s string) []byte { return []byte(s) }}
+	}
+	var bc skiplist.Comparator[[]byte] = skiplist.BytesComparator{}
+	if scale != 1 {
+		bc = scaledBytesCmp{scale}
+	}
+	return &skipImpl[[]byte]{m: skiplist.NewSkipListMap[[]byte, string](bc),
+		conv: func(b []byte) []byte { return b }, back: func(b []byte) []byte { return b }}
+}
+
 func decodeIntKey(b []byte) int64 { return int64(binary.BigEndian.Uint64(b) ^ (1 << 63)) }
 
 func runSkip(res *Result, drv *Driver, seed uint64, n int, tier string, only int) error {
 	res.Rule = "insertion sequences (all permutations of up to 6 keys first, then random; duplicates included) x {int,string,bytes} comparators x all probes/bounds; " +
-		"non-trivial = at least 2 keys inserted; distinct = distinct (comparator, insertion sequence)"
+		"non-trivial = at least 2 keys inserted; distinct = distinct (comparator, insertion sequence). " +
+		"Every case also runs an OP PROGRAM on a fresh map over a small key universe: Insert / Get / Contains (hits, misses, duplicate inserts; " +
+		"miss(k), Insert(others), Insert(k)) in any order, each lookup compared where it happens, the whole map compared after every 1-5 ops and at the end, " +
+		"and ITERATOR PROGRAMS (2-9 full / starting-at / between iterators alive at once, advanced in interleaved order, Next repeated after Done while " +
+		"others are created and drained); non-trivial program = at least 2 keys and one interleaved lookup, distinct = distinct program"
 	// case list: exhaustive permutations of small key sets come first
 	type skCase struct {
 		cmp  string
@@ -298,6 +347,418 @@ func runSkip(res *Result, drv *Driver, seed uint64, n int, tier string, only int
 			return err
 		}
 		res.Cmp(idx, "skip.run", m, "ins="+strings.Join(insOut, ",")+" "+strings.Join(implOut, " "), cs)
+		if err := runSkipProgram(res, drv, seed, idx, c.cmp, tier); err != nil {
+			return err
+		}
+	}
+	return nil
+}
+
+// ---------------------------------------------------------------------------------------------
+// second part of every "skip" case: an OP PROGRAM on a fresh map. Insert / Get / Contains (hits, misses, duplicate
+// inserts) come in any order; after every few operations and at the end the whole map is compared (size, Get/Contains
+// of every key of the universe, full iteration, starting-at and range iterators), and at some of these points an
+// ITERATOR PROGRAM runs: several iterators alive at once, advanced in interleaved order, Next called again on
+// iterators that already reported Done while new ones are created and drained.
+// The model is pure: every run of lookups between two inserts is sent with the inserts performed so far.
+
+type skipOp struct {
+	kind string // ins, get, has, check
+	key  []byte
+}
+
+func runSkipProgram(res *Result, drv *Driver, seed uint64, idx int, cmp string, tier string) error {
+	r := NewRng(seed^0x0b5e9a11c0de, uint64(idx))
+	scale := 1
+	if cmp == "bytes" {
+		scale = []int{1, 1, 2, 255, 1 << 20}[r.Intn(5)]
+	}
+	impl := newSkipImpl(cmp, scale)
+	// key universe
+	usz := 2 + r.Intn(10)
+	seen := map[string]bool{}
+	var uni [][]byte
+	for tries := 0; len(uni) < usz && tries < 200; tries++ {
+		var k []byte
+		if cmp == "int" {
+			k = intKey(int64(r.Intn(40)) - 20)
+		} else {
+			k = make([]byte, r.Intn(4))
+			for x := range k {
+				k[x] = []byte{0, 1, 'a', 'b', 0xff}[r.Intn(5)]
+			}
+		}
+		if !seen[string(k)] {
+			seen[string(k)] = true
+			uni = append(uni, k)
+		}
+	}
+	sort.Slice(uni, func(a, b int) bool { return bytes.Compare(uni[a], uni[b]) < 0 })
+	// generate the program (simulating which keys are present, to aim lookups at hits and misses)
+	nops := r.Intn(40)
+	if tier == "thorough" && r.Chance(20) {
+		nops = 40 + r.Intn(120)
+	}
+	present := map[string]bool{}
+	absent := func() [][]byte {
+		var a [][]byte
+		for _, k := range uni {
+			if !present[string(k)] {
+				a = append(a, k)
+			}
+		}
+		return a
+	}
+	var ops []skipOp
+	lookup := func(k []byte) skipOp { return skipOp{[]string{"get", "has"}[r.Intn(2)], k} }
+	nextCheck := 1 + r.Intn(5)
+	for len(ops) < nops {
+		switch x := r.Intn(100); {
+		case x < 35:
+			k := uni[r.Intn(len(uni))]
+			ops = append(ops, skipOp{"ins", k})
+			present[string(k)] = true
+		case x < 75:
+			ops = append(ops, lookup(uni[r.Intn(len(uni))]))
+		default:
+			// look a key up that is absent, insert it afterwards (the memstore's pattern), other absent keys possibly first
+			a := absent()
+			if len(a) == 0 {
+				ops = append(ops, lookup(uni[r.Intn(len(uni))]))
+				break
+			}
+			k := a[r.Intn(len(a))]
+			ops = append(ops, lookup(k))
+			for j := r.Intn(3); j > 0; j-- {
+				o := a[r.Intn(len(a))]
+				if !bytes.Equal(o, k) {
+					ops = append(ops, skipOp{"ins", o})
+					present[string(o)] = true
+				}
+			}
+			ops = append(ops, skipOp{"ins", k})
+			present[string(k)] = true
+		}
+		if len(ops) >= nextCheck {
+			ops = append(ops, skipOp{kind: "check"})
+			nextCheck = len(ops) + 1 + r.Intn(5)
+		}
+	}
+	ops = append(ops, skipOp{kind: "check"})
+	var opTok []string
+	for _, o := range ops {
+		if o.kind == "check" {
+			opTok = append(opTok, "check")
+		} else {
+			opTok = append(opTok, o.kind+":"+gb(nonNil(o.key)))
+		}
+	}
+	cs := fmt.Sprintf("%s scale=%d program=%s", cmp, scale, strings.Join(opTok, ","))
+	res.Stat("prog:programs")
+	res.StatN("prog:ops", len(ops))
+
+	ref := map[string]string{}
+	var sk [][]byte // present keys, sorted
+	refList := func(pred func(k []byte) bool) string {
+		var parts []string
+		for _, k := range sk {
+			if pred(k) {
+				parts = append(parts, gb(nonNil(k))+"="+ref[string(k)])
+			}
+		}
+		if len(parts) == 0 {
+			return "[]"
+		}
+		return strings.Join(parts, ";")
+	}
+	var insTok, insOut []string
+	var probes, implOut []string
+	at := 0 // index of the op being executed
+	add := func(sig, p, got, want, extra string) {
+		probes = append(probes, p)
+		implOut = append(implOut, got)
+		res.Evaluations++
+		if got != want {
+			res.Violate(idx, "C16", sig, fmt.Sprintf("op #%d %s: want %s got %s", at, p, want, got), cs+extra)
+		}
+	}
+	flush := func() error {
+		if len(probes) == 0 {
+			return nil
+		}
+		m, err := drv.Ask(fmt.Sprintf("skip.run ins=%s probes=%s", strings.Join(insTok, ","), strings.Join(probes, ",")))
+		if err != nil {
+			return err
+		}
+		res.Cmp(idx, fmt.Sprintf("skip.run (op program, lookups after %d inserts, up to op #%d)", len(insTok), at), m,
+			"ins="+strings.Join(insOut, ",")+" "+strings.Join(implOut, " "), cs)
+		probes, implOut = nil, nil
+		return nil
+	}
+	doLookup := func(sigp string, kind string, k []byte) {
+		ks := gb(nonNil(k))
+		rv, in := ref[string(k)]
+		if kind == "get" {
+			v, ok := impl.get(k)
+			got, want := "notfound", "notfound"
+			if ok {
+				got = "ok:" + v
+			}
+			if in {
+				want = "ok:" + rv
+			}
+			add(sigp+"get", "get:"+ks, got, want, "")
+		} else {
+			add(sigp+"has", "has:"+ks, strconv.FormatBool(impl.has(k)), strconv.FormatBool(in), "")
+		}
+	}
+	// bounds for iterators: keys of the universe and now and then a key outside of it
+	bound := func() []byte {
+		if r.Chance(15) {
+			if cmp == "int" {
+				return intKey(int64(r.Intn(50)) - 25)
+			}
+			return r.Bytes(r.Intn(3))
+		}
+		return uni[r.Intn(len(uni))]
+	}
+	var missKey []byte // key of the latest lookup that came back empty, nil after the next lookup hit / when consumed
+	othersSince := 0
+	lookups := 0
+	for i, o := range ops {
+		at = i
+		switch o.kind {
+		case "ins":
+			if err := flush(); err != nil {
+				return err
+			}
+			v := "w" + strconv.Itoa(len(insTok))
+			insTok = append(insTok, fmt.Sprintf("%s:%s:%d", gb(nonNil(o.key)), v, 1+r.Intn(12)))
+			p := impl.insert(o.key, v)
+			_, dup := ref[string(o.key)]
+			res.Evaluations++
+			if p != dup {
+				res.Violate(idx, "C16", "skip:ops:dup-handling", fmt.Sprintf("op #%d insert of key %x: panicked=%v but duplicate=%v", i, o.key, p, dup), cs)
+			}
+			if p {
+				insOut = append(insOut, "panic")
+				res.Stat("prog:dup-insert")
+			} else {
+				insOut = append(insOut, "ok")
+			}
+			if !dup {
+				ref[string(o.key)] = v
+				sk = append(sk, o.key)
+				sort.Slice(sk, func(a, b int) bool { return bytes.Compare(sk[a], sk[b]) < 0 })
+			}
+			if missKey != nil {
+				if bytes.Equal(missKey, o.key) {
+					if othersSince > 0 {
+						res.Stat("prog:miss(k),insert(others),insert(k)")
+					} else {
+						res.Stat("prog:miss(k),insert(k)")
+					}
+					missKey = nil
+				} else if !dup {
+					othersSince++
+				}
+			}
+		case "get", "has":
+			lookups++
+			if _, in := ref[string(o.key)]; in {
+				res.Stat("prog:lookup-hit")
+				missKey = nil
+			} else {
+				res.Stat("prog:lookup-miss")
+				missKey, othersSince = o.key, 0
+			}
+			doLookup("skip:ops:", o.kind, o.key)
+		case "check":
+			res.Stat("prog:full-comparisons")
+			add("skip:ops:size", "size", strconv.Itoa(impl.size()), strconv.Itoa(len(ref)), "")
+			all, err := impl.iter("all", nil, nil)
+			if err != nil {
+				return err
+			}
+			add("skip:ops:all", "all", all, refList(func([]byte) bool { return true }), "")
+			// the full comparison's lookups do not count as lookups of the program (they would hide a remembered miss):
+			// they run on every SECOND comparison only, the others compare by iteration alone
+			if r.Chance(50) {
+				for _, k := range uni {
+					doLookup("skip:ops:check-", "get", k)
+					doLookup("skip:ops:check-", "has", k)
+				}
+				missKey = nil
+			}
+			for j := 0; j < 3; j++ {
+				k := bound()
+				fr, err := impl.iter("from", k, nil)
+				if err != nil {
+					return err
+				}
+				kk := k
+				add("skip:ops:from", "from:"+gb(nonNil(k)), fr, refList(func(x []byte) bool { return bytes.Compare(x, kk) >= 0 }), "")
+				lo, hi := bound(), bound()
+				bt, err := impl.iter("between", lo, hi)
+				if err != nil {
+					return err
+				}
+				want := "rejected"
+				if bytes.Compare(lo, hi) <= 0 {
+					want = refList(func(x []byte) bool { return bytes.Compare(x, lo) >= 0 && bytes.Compare(x, hi) <= 0 })
+				}
+				add("skip:ops:between", "between:"+gb(nonNil(lo))+":"+gb(nonNil(hi)), bt, want, "")
+			}
+			if r.Chance(40) || i == len(ops)-1 {
+				// iterator program on the current map
+				res.Stat("iters:programs")
+				type slot struct {
+					probe, want string
+					next        func() (string, bool, error)
+					got         []string
+					done        bool
+					calls       int
+				}
+				var slots []*slot
+				var sched []string
+				open := func() {
+					sl := &slot{}
+					kind := []string{"all", "from", "between"}[r.Intn(3)]
+					var a, b []byte
+					switch kind {
+					case "all":
+						sl.probe, sl.want = "all", refList(func([]byte) bool { return true })
+					case "from":
+						a = bound()
+						sl.probe, sl.want = "from:"+gb(nonNil(a)), refList(func(x []byte) bool { return bytes.Compare(x, a) >= 0 })
+					default:
+						a, b = bound(), bound()
+						if bytes.Compare(a, b) > 0 && r.Chance(80) {
+							a, b = b, a
+						}
+						sl.probe = "between:" + gb(nonNil(a)) + ":" + gb(nonNil(b))
+						sl.want = "rejected"
+						if bytes.Compare(a, b) <= 0 {
+							sl.want = refList(func(x []byte) bool { return bytes.Compare(x, a) >= 0 && bytes.Compare(x, b) <= 0 })
+						}
+					}
+					res.Stat("iters:opened:" + kind)
+					sched = append(sched, fmt.Sprintf("open#%d=%s", len(slots), sl.probe))
+					nx, rejected := impl.open(kind, a, b)
+					if rejected {
+						sl.done = true
+						sl.got = []string{"rejected"}
+					} else {
+						sl.next = nx
+					}
+					slots = append(slots, sl)
+				}
+				limit := len(sk) + 6
+				var iterErr error
+				step := func(j int) {
+					sl := slots[j]
+					if sl.next == nil || sl.calls > limit {
+						return
+					}
+					sl.calls++
+					sched = append(sched, fmt.Sprintf("next#%d", j))
+					e, done, err := sl.next()
+					if err != nil {
+						iterErr = err
+						return
+					}
+					switch {
+					case done && sl.done:
+						res.Stat("iters:next-after-done:done-again")
+						res.Evaluations++
+					case done:
+						sl.done = true
+					case sl.done:
+						// Done is final: an element after it is reported, and kept in the answer so that the model differs too
+						res.Evaluations++
+						res.Violate(idx, "C16", "skip:iters:next-after-done", fmt.Sprintf("op #%d iterator #%d (%s) had reported Done, a later Next returned %s", at, j, sl.probe, e),
+							cs+" iterators@op#"+strconv.Itoa(at)+"="+strings.Join(sched, ","))
+						sl.got = append(sl.got, "AFTER-DONE:"+e)
+					default:
+						sl.got = append(sl.got, e)
+					}
+				}
+				alive := func() int {
+					n := 0
+					for _, sl := range slots {
+						if !sl.done {
+							n++
+						}
+					}
+					return n
+				}
+				for j := 2 + r.Intn(3); j > 0; j-- {
+					open()
+				}
+				maxAlive := alive()
+				for st := r.Intn(60); st > 0 && iterErr == nil; st-- {
+					switch x := r.Intn(100); {
+					case x < 65:
+						step(r.Intn(len(slots)))
+					case x < 80 && len(slots) < 9:
+						open()
+						if a := alive(); a > maxAlive {
+							maxAlive = a
+						}
+					case x < 90:
+						// drain one completely
+						j := r.Intn(len(slots))
+						for c := 0; !slots[j].done && c <= limit && iterErr == nil; c++ {
+							step(j)
+						}
+					default:
+						// an exhausted one is asked again
+						var dn []int
+						for j, sl := range slots {
+							if sl.done && sl.next != nil {
+								dn = append(dn, j)
+							}
+						}
+						if len(dn) > 0 {
+							step(dn[r.Intn(len(dn))])
+						}
+					}
+				}
+				// drain the rest in round-robin order, then ask every one once more
+				for c := 0; alive() > 0 && c <= limit && iterErr == nil; c++ {
+					for j, sl := range slots {
+						if !sl.done {
+							step(j)
+						}
+					}
+				}
+				for j := range slots {
+					step(j)
+				}
+				if iterErr != nil {
+					return iterErr
+				}
+				res.Stat(fmt.Sprintf("iters:max-alive-at-once=%d", maxAlive))
+				extra := " iterators@op#" + strconv.Itoa(at) + "=" + strings.Join(sched, ",")
+				for _, sl := range slots {
+					got := "[]"
+					if len(sl.got) > 0 {
+						got = strings.Join(sl.got, ";")
+					}
+					if !sl.done {
+						got += ";NO-DONE"
+					}
+					add("skip:iters:"+strings.SplitN(sl.probe, ":", 2)[0], sl.probe, got, sl.want, extra)
+				}
+			}
+		}
+	}
+	at = len(ops)
+	if err := flush(); err != nil {
+		return err
+	}
+	if len(ref) >= 2 && lookups > 0 {
+		res.NoteNontrivial(cs)
 	}
 	return nil
 }
